@@ -292,17 +292,23 @@ def run(cx, rep):
                         ins = len([x for x in walk(t["body"]) if x["k"] == "MethodCall" and x["method"] == "insert" and locals_in(x["recv"]) == [a_args["name"]]])
                         sinks[g] = {"name_param": ps.index(a_name["name"]), "args_param": ps.index(a_args["name"]), "extra": sk["extra"] + ins}
                         changed = True
-                    elif a_name["k"] == "Path" and a_name.get("name") in ps and a_args["k"] == "Path" and a_args.get("res") == "local":
+                    elif a_name["k"] == "Path" and a_name.get("name") in ps and (a_args["k"] != "Path" or a_args.get("res") == "local"):
                         # the argument vector is assembled in a local: `once(first).chain(rest_args).collect()` -
-                        # the wrapper's parameter supplies the rest, every `once(..)` prepends one argument
-                        for st in walk(t["body"]):
-                            if st["k"] == "LetStmt" and st["pat"].get("name") == a_args.get("name") and st.get("init") is not None:
-                                inner = [y.get("name") for x in walk(st["init"]) if x["k"] == "MethodCall" and x.get("method") in ("chain", "extend") and x.get("args")
-                                         for y in walk(x["args"][0]) if y["k"] == "Path" and y.get("res") == "local" and y.get("name") in ps]
-                                onces = len([x for x in walk(st["init"]) if x["k"] == "Call" and (x.get("callee") or "").endswith("iter::once")])
-                                if len(set(inner)) == 1 and not any(x["k"] == "MethodCall" and x.get("method") in ("filter", "skip", "take", "filter_map", "step_by") for x in walk(st["init"])):
-                                    sinks[g] = {"name_param": ps.index(a_name["name"]), "args_param": ps.index(inner[0]), "extra": sk["extra"] + onces}
-                                    changed = True
+                        # the wrapper's parameter supplies the rest, every `once(..)` prepends one argument.
+                        # b92 (round 11, Z3): the same chain written IN PLACE of the argument
+                        # (`sink(name, once(meta).chain(args).collect())`) is the same vector as one bound to a local first.
+                        if a_args["k"] == "Path":
+                            inits = [st["init"] for st in walk(t["body"])
+                                     if st["k"] == "LetStmt" and st["pat"].get("name") == a_args.get("name") and st.get("init") is not None]
+                        else:
+                            inits = [a_args]
+                        for init in inits:
+                            inner = [y.get("name") for x in walk(init) if x["k"] == "MethodCall" and x.get("method") in ("chain", "extend") and x.get("args")
+                                     for y in walk(x["args"][0]) if y["k"] == "Path" and y.get("res") == "local" and y.get("name") in ps]
+                            onces = len([x for x in walk(init) if x["k"] == "Call" and (x.get("callee") or "").endswith("iter::once")])
+                            if len(set(inner)) == 1 and not any(x["k"] == "MethodCall" and x.get("method") in ("filter", "skip", "take", "filter_map", "step_by") for x in walk(init)):
+                                sinks[g] = {"name_param": ps.index(a_name["name"]), "args_param": ps.index(inner[0]), "extra": sk["extra"] + onces}
+                                changed = True
     rep.rule("C01.1", "constructor table: printer (writer) vs glue imports vs client classes (reader)")
     rep.ob("C01.1", "sinks", len(sinks) >= 2, "could not find the functions that build `new <Name>(..)` expressions in printer.rs", "packages/beff-core/src/print/printer.rs",
            sample={"new_expression_builders": sorted(x.rsplit("::", 1)[-1] for x in sinks)})
